@@ -21,7 +21,7 @@ def run_spec(pid, tier, spec, replay=None):
         jobs = []
         for b in spec["plan"](tier):
             exe = c.build_exe(spec["harness"], spec["src"], defs=b.get("defs", []), sanitize=b.get("sanitize", "address"), libs=b.get("libs", ["-lcrypto"]),
-                              main_cpp=b.get("main_cpp", False))
+                              main_cpp=b.get("main_cpp", False), instrument_sources=b.get("instrument_sources", ()), instrument_fine=b.get("instrument_fine", False))
             n = b.get("nshards", c.NCPU)
             for sh in range(n):
                 jobs.append([exe] + ["%s=%s" % kv for kv in b["args"].items()] + ["tier=" + tier, "seed=%d" % seed, "shard=%d" % sh, "nshards=%d" % n])
@@ -36,6 +36,9 @@ def run_spec(pid, tier, spec, replay=None):
     bad = [f for f in agg.failed if f[1] != -999]
     if bad:
         cannot = "harness process failed: rc=%s %s ... %s" % (bad[0][1], " ".join(bad[0][0][1:5]), bad[0][2][-300:].replace("\n", " "))
+    if agg.flags.get("machinery_ok", True) is False:
+        why = [r.get("machinery_failure") for r in agg.info if r.get("machinery_failure")]
+        cannot = cannot or ("the harness itself hit a limit or internal error (%s): not a verdict about the property" % "; ".join(why[:2]))
     classes = agg.sets.get("classes", set())
     cov = {
         "evaluations": int(agg.cov.get("evaluations", 0)),
@@ -76,10 +79,10 @@ def do_replay(pid, spec, path):
     builds = spec["plan"](tier)
     b = builds[0]
     for cand in builds:
-        if all(str(cand["args"].get(k)) == args.get(k) for k in cand["args"] if k in ("mode", "sub", "bufsz", "hbufsz")):
+        if all(str(cand["args"].get(k)) == args.get(k) for k in cand["args"] if k in ("mode", "sub", "bufsz", "hbufsz", "sched")) and (cand["args"].get("sched") == args.get("sched")):
             b = cand
             break
-    exe = c.build_exe(spec["harness"], spec["src"], defs=b.get("defs", []), sanitize=b.get("sanitize", "address"), libs=b.get("libs", ["-lcrypto"]), main_cpp=b.get("main_cpp", False))
+    exe = c.build_exe(spec["harness"], spec["src"], defs=b.get("defs", []), sanitize=b.get("sanitize", "address"), libs=b.get("libs", ["-lcrypto"]), main_cpp=b.get("main_cpp", False), instrument_sources=b.get("instrument_sources", ()), instrument_fine=b.get("instrument_fine", False))
     argv = [exe] + r["args"].split() + ["single=" + r["single"]]
     env = dict(os.environ)
     env.update(c.HARNESS_ENV)
